@@ -169,6 +169,7 @@ def check_regrid_case(ctx, x, y, step, flags=(), source='generated'):
         return out
     # a second pass over the same arrays (another command, another grid) must see the same record
     if len(xa) and rec.evaluations % 7 == 0:
+        list(rg.regrid(xa, ya, step * 2.5))  # another grid on the same record in between
         again = list(rg.regrid(xa, ya, step))
         if [(int(k), float(v)) for k, v in again] != [(int(k), float(v)) for k, v in out]:
             rec.violation('second-pass-over-the-same-series-reports-other-crossings', {'first': [(int(k), float(v)) for k, v in out[:6]], 'second': [(int(k), float(v)) for k, v in again[:6]]}, case, 'regrid')
